@@ -85,6 +85,14 @@ Theorem C16_encode_injective : forall cs ds,
   forallb scalar cs = true -> forallb scalar ds = true -> encode cs = encode ds -> cs = ds.
 Proof. exact encode_injective. Qed.
 
+(* deserialization builds a SharedString from raw bytes only through the validating from_utf8 *)
+Theorem C16_code_deserialization_validates :
+  de_text_wf SharedString_de_visit_str = true /\ de_text_wf SharedString_de_visit_string = true /\
+  de_validates ["str"; "from_utf8"]%string SharedString_de_visit_bytes = true /\
+  de_validates ["String"; "from_utf8"]%string SharedString_de_visit_byte_buf = true /\
+  de_bytes_wf "from_slice" SharedBytes_de_visit_bytes = true /\ de_bytes_wf "from_vec" SharedBytes_de_visit_byte_buf = true.
+Proof. exact deserialization_validates. Qed.
+
 Example C16_nonvacuous :
   let r := run init [SFromSlice [1;2;3]; SClone 0; SFromVec [] 0; SFromVec [5] 8; SDrop 0; SRead 0;
                      SDrop 0; SDropSlow 0; SDrop 1; SDropSlow 1; SDrop 3; SDropSlow 3] in
